@@ -375,10 +375,17 @@ def build_cfg(case, lst, bu):
                 raise AssertionError(f"edge to non-code position {tgt}")
         elif tgt[0] == "extern":
             dst = bu.extern_proxies[tgt[1]]
+        elif case.get("shared_return_proxy") and et == "return" and \
+                "ret" in anon:
+            # (C05 only) one proxy stands for every unknown return target,
+            # as disassemblers emit it
+            dst = anon["ret"]
         else:
             dst = gtirb.ProxyBlock()
             m.proxies.add(dst)
             bu.anon_proxies.add(dst)
+            if et == "return":
+                anon.setdefault("ret", dst)
         if et == "ft":
             label = gtirb.Edge.Label(type=ETYPE[et])
         elif et == "return":
